@@ -100,8 +100,18 @@ package base
 //@   ensures releases-stmt: ghost.stmts_open == old(ghost.stmts_open)
 //@   at call InsertUndoLogWithSqlConn#1: assert marker-status: arg_record.LogStatus == UndoLogStatusGlobalFinished && arg_record.XID == xid && arg_record.BranchID == branchID && arg_conn == conn
 
+// the undo_log INSERT is a plain INSERT: the unique key (xid, branch_id) makes it FAIL when a row of
+// the branch exists already - that failure is what lets the global-finished marker block a late phase
+// one (and what tells a second flush of the same branch from the first). Abstract: the table name.
+//@ func getUndoLogTableName
+//@   trusted
+//@   ensures !contains(result, "IGNORE") && !contains(result, "DUPLICATE")
+//@ func getInsertUndoLogSql
+//@   prop C10 C02
+//@   ensures insert-fails-on-an-existing-row: result[0:12] == "INSERT INTO " && !contains(result, "IGNORE") && !contains(result, "ON DUPLICATE KEY")
 //@ func (*BaseUndoLogManager).Undo
 //@   prop C10 C01
+//@   ensures transaction-on-the-rollback-connection: !called("(*DB).BeginTx#1") && (ghost.utx != 0 ==> called("(*Conn).BeginTx#1") && callarg("(*Conn).BeginTx#1", 0) == callres("(*DB).Conn#1", 0))
 //@   modifies ghost.all, heap.all
 //@   requires db != nil && ghost.utx == 0 && !ghost.step_failed && ghost.execs == 0
 //@   ensures one-outcome: ghost.utx != 1
